@@ -190,9 +190,9 @@ def solve_sat(
 
     def unassign_to(level):
         nonlocal prop_head
-        while len(trail_lim) > level:
-            trail_lim.pop()
-        target = trail_lim[-1] if trail_lim else 0
+        # trail_lim[level] is where level + 1 starts: levels 0..level stay assigned
+        target = trail_lim[level] if len(trail_lim) > level else len(trail)
+        del trail_lim[level:]
         while len(trail) > target:
             var = trail.pop()
             phase[var] = vals[var] == 1
@@ -200,7 +200,7 @@ def solve_sat(
             if not in_heap[var]:
                 heappush(var_heap, (-activity[var], var))
                 in_heap[var] = True
-        prop_head = len(trail)
+        prop_head = min(prop_head, len(trail))
 
     def find_pure_literals():
         pos_count = [0] * (n_vars + 1)
@@ -498,14 +498,21 @@ def solve_sat(
             learned.append(blocking)
             lbd_scores.append(n_vars)
 
+            unassign_to(0)
+            dec_level = 0
+
+            # Level 0 stays assigned: watch literals that are not false there, assert the last open one
+            blocking.sort(key=lambda lit: lit_value(lit) is False)
+            open_lits = sum(lit_value(lit) is not False for lit in blocking)
+            if open_lits == 0:
+                conflict = clause_idx  # every remaining assignment is blocked: enumeration is complete
+                continue
+            if open_lits == 1:
+                assign(lit_var(blocking[0]), blocking[0] > 0, clause_idx)
             if len(blocking) >= 2:
                 add_watch(blocking[0], clause_idx)
                 add_watch(blocking[1], clause_idx)
-            elif len(blocking) == 1:
-                add_watch(blocking[0], clause_idx)
 
-            unassign_to(0)
-            dec_level = 0
             conflict = propagate()
             continue
 
